@@ -61,16 +61,27 @@ RULE = (
 )
 ASSUMPTIONS = [
     "CPython's parser, ast.unparse, eval and exec are the reference for Python semantics",
-    "values are compared through the canonical form N19 (functions by signature and by probing calls, generators by their items)",
-    "(a) the AST oracle treats Constant(Ellipsis) and Name('Ellipsis') as equal (same value unless the builtin is shadowed)",
-    "(a) texts that contain both quote characters cannot be written inside a tag attribute and are exercised in the filter position only",
+    "values are compared through the canonical form N19 (functions by signature and by probing calls, generators by their items; "
+    "addresses and enclosing-function names inside object reprs are not part of a value)",
+    "(a) the AST oracle treats Constant(Ellipsis) and Name('Ellipsis') as equal, and an f-string without placeholders as its text",
+    "(a) DONT_CARE: a text the *lexer* cannot delimit in the position (MakoException out of Lexer.parse, e.g. nested quotes of a "
+    "3.12 f-string inside ${}) - that is C01's ground; texts holding both quote characters are exercised in the filter position only",
+    "(a) left out: expressions whose native evaluation does not terminate (3 ** 10**20), detected in a forked child",
+    "(a) a failing tree is attributed to the smallest sub-structure that already fails on its own; trees containing a shape that fails "
+    "on its own are executed once (all positions together) and not again position by position",
     "(b) 'uniform indentation' = every code line starts with the same margin string, the first line included when it shares the line "
-    "of '<%'; lines inside string literals keep their own whitespace (it is content); continuation lines are indented at least the margin",
+    "of '<%'; lines inside string literals keep their own whitespace (it is content); continuation lines are indented at least the "
+    "margin; a comment-only line may sit at any column. DONT_CARE: first line on the '<%' line aligned visually instead of textually",
     "(b) cases whose real Lexer parse tree (node types, code text, text content; positions excluded) equals that of an already "
     "executed case reuse its compile+render verdict",
-    "(c) `global` statements are left out: the template namespace is not the generated module's global namespace",
-    "(c) a removed free name must produce a NameError naming it only when the native run raises NameError too",
-    "identifier spellings are fixed; VERIF_SEED only selects literal values",
+    "(c) `global` statements are left out: the template namespace is not the generated module's global namespace; names deleted at "
+    "module level and read from the body are left out",
+    "(c) module-level free names (<%! %>, defaults of top-level defs) are declared by an import line, as a template author has to",
+    "(c) a removed free name must produce a NameError naming it only when the native run raises NameError too; the name-removal runs "
+    "are judged only for cases that hold with their full environment",
+    "(c) in positions that re-emit the expression (def defaults, filter arguments) a failure is left to part (a) when the re-emitted "
+    "text of that expression is already wrong there",
+    "identifier spellings are fixed; VERIF_SEED only selects literal values; PYTHONHASHSEED=0 (set by ./run)",
 ]
 BOUNDS = {
     "quick": {
